@@ -624,12 +624,13 @@ DATE_EXTREME_D = [-36525, -1000, -366, -365, -59, -31, -30, -2, -1, 0, 1, 2, 28,
                   36525, 100000]
 
 
-def sweep_date_box(acc, rng, years, mlo, mhi, dlo, dhi):
+def sweep_date_box(acc, rng, years, mlo, mhi, dlo, dhi, inverse=True):
     for y in years:
         for m in range(mlo, mhi + 1):
             for d in range(dlo, dhi + 1):
                 acc.run('date', y, m, d)
-                acc.run('ymd_of_date', y, m, d)
+                if inverse:
+                    acc.run('ymd_of_date', y, m, d)
     acc.sample({'DATE': [years[0], mlo, dlo], 'expected': list(_date_exps(years[0], mlo, dlo)[0])})
 
 
@@ -670,11 +671,11 @@ def sweep_ymd(acc, rng):
     acc.sample({'YEAR/MONTH/DAY of': '2024-02-29 23:59:59.999999', 'expected': [2024, 2, 29]})
 
 
-def shift_starts(tier):
+def shift_starts(tier, route=None):
     """start dates for EDATE / EOMONTH"""
     out = []
     if tier == 'quick':
-        spans = [((2023, 12, 1), (2025, 3, 31))]
+        spans = [((2023, 12, 1), (2024, 3, 31) if route == 'override' else (2025, 3, 31))]
         tails = [1900, 1904, 1999, 2000, 2001, 2049, 2050, 2051, 2099, 2100, 2101, 2400, 9990]
     else:
         spans = [((1896, 1, 1), (1905, 12, 31)), ((1996, 1, 1), (2005, 12, 31)), ((2019, 1, 1), (2030, 12, 31)),
@@ -692,7 +693,7 @@ FRACTIONS = [0.5, -0.5, 0.9, -0.9, 1.5, -1.5, 11.99, -11.99, 12.000001, -12.0000
 
 
 def sweep_shift(acc, rng, tier, part, nparts):
-    starts = shift_starts(tier)
+    starts = shift_starts(tier, acc.route)
     for i, t in enumerate(starts):
         if i % nparts != part:
             continue
@@ -1221,7 +1222,7 @@ def plan(tier):
     box = dict(mlo=-14, mhi=26, dlo=-70, dhi=99) if q else dict(mlo=-30, mhi=40, dlo=-400, dhi=400)
     for route in ALL3:
         for y in box_years:
-            T.append(('date', route, 'date_box', dict(years=[y], **box)))
+            T.append(('date', route, 'date_box', dict(years=[y], inverse=not (q and route == 'abstract'), **box)))
         T.append(('date', route, 'date_extremes', {}))
         T.append(('ymd', route, 'ymd', {}))
     for part in range(LITERAL_PARTS[tier]):
@@ -1235,7 +1236,8 @@ def plan(tier):
     # ---- DATEDIF
     for route in HELPERS:
         for part in range(NP):
-            T.append(('datedif', route, 'datedif_window', dict(win='leap2y' if q else 'leap3y', part=part, nparts=NP, sstep=1, cell_every=0)))
+            T.append(('datedif', route, 'datedif_window', dict(win='leap2y' if q else 'leap3y', part=part, nparts=NP,
+                                                                sstep=2 if (q and route == 'abstract') else 1, cell_every=0)))
         for win in ('c1900', 'c2000', 'c2100', 'y2050'):
             for part in range(4):
                 T.append(('datedif', route, 'datedif_window', dict(win=win, part=part, nparts=4, sstep=5 if q else 1, cell_every=0)))
@@ -1402,10 +1404,10 @@ def run(tier='quick', seed=0):
     subst = {
         'tier_box': ('years {1900,1999,2000,2023,2024,100,2100} x months -14..26 x days -70..99' if q else
                      'years {1900,1999,2000,2023,2024,100,2100,1904,2050,2051,2096,2400,9998} x months -30..40 x days -400..400'),
-        'tier_shift': ('every day 2023-12-01..2025-03-31 + days 1,15,27..31 of every month of 13 further years 1900..9990' if q else
+        'tier_shift': ('every day 2023-12-01..2025-03-31 (formulas under overrides: ..2024-03-31) + days 1,15,27..31 of every month of 13 further years 1900..9990' if q else
                        'every day of 1896-1905, 1996-2005, 2019-2030, 2046-2056, 2096-2105 + days 1,15,27..31 of every month of '
                        'years 1,4,100,400,1600,1700,1800,2200,2300,2400,5000,9990,9994,9999'),
-        'tier_dd0': '2023-07-01..2025-06-30' if q else '2023-01-01..2025-12-31',
+        'tier_dd0': '2023-07-01..2025-06-30 (abstract copy: every 2nd start day)' if q else '2023-01-01..2025-12-31',
         'tier_dd1': 'every 5th start day' if q else 'all pairs',
         'tier_dd2': '2023-12-01..2024-03-31' if q else '2023-06-01..2025-03-31',
         'tier_dd3': '4 x 1500' if q else '4 x 20000',
